@@ -38,6 +38,9 @@ class FakeIO:
         self.calls = []
         self.dst = bytearray(dst0)
         self.fail_next_write = None
+        self.src_close_fail = None      # None | 'sftp' | 'os': what the copier's source / destination close() raises
+        self.dst_close_fail = None
+        self.closed = []
         self.logger = _Log()
         self.limits = asyncssh.SFTPLimits(0, 1 << 22, 1 << 22, 0)
 
@@ -72,6 +75,12 @@ def _exc(kind):
     if kind == 'os':
         return OSError(5, 'injected I/O error')
     return asyncssh.SFTPFailure('injected failure')
+
+
+def _close_exc(origin, kind):
+    e = _exc(kind)
+    e.c12_origin = origin
+    return e
 
 
 def deliver(io, req, reply):
@@ -140,7 +149,8 @@ async def drive(io, coro, decide, batch=None):
     except asyncio.CancelledError:
         res = ('failed', 'Cancelled')
     except Exception as e:   # noqa: the class is what is compared
-        res = ('failed', type(e).__name__)
+        # third component: where the exception came from ('body' unless a fake close() raised it)
+        res = ('failed', type(e).__name__, getattr(e, 'c12_origin', 'body'))
     return steps, res, stuck
 
 
@@ -171,7 +181,9 @@ class FakeSrcFile:
             yield r
 
     async def close(self):
-        pass
+        self.io.closed.append('src')
+        if self.io.src_close_fail:
+            raise _close_exc('src_close', self.io.src_close_fail)
 
 
 class FakeDstFile:
@@ -198,7 +210,9 @@ class FakeDstFile:
             await self.truncate(attrs.size)
 
     async def close(self):
-        pass
+        self.io.closed.append('dst')
+        if self.io.dst_close_fail:
+            raise _close_exc('dst_close', self.io.dst_close_fail)
 
 
 class FakeFS:
